@@ -49,7 +49,7 @@ var blockedRe = regexp.MustCompile(`(?m)^goroutine \d+ \[(chan send|chan receive
 // withWatchdog runs fn; if it does not return, a no-progress detector decides: two goroutine dumps
 // 3 s apart in which every library goroutine is parked at the same place => deadlock (violation);
 // anything else => inconclusive. Returns false when fn did not return.
-func withWatchdog(c *mon.Ctx, key string, desc func() string, limit time.Duration, fn func()) bool {
+func withWatchdog(c *mon.Ctx, key string, desc func() string, limit time.Duration, fn func(), size ...int) bool {
 	done := make(chan struct{})
 	var panicked any
 	go func() {
@@ -107,6 +107,13 @@ func withWatchdog(c *mon.Ctx, key string, desc func() string, limit time.Duratio
 			d1 = d1[:3000]
 		}
 		c.Fail(key+"/no-termination", "%s did not return within %v; all library goroutines are parked at the same place in two dumps 3 s apart (deadlock):\n%s", desc(), limit, d1)
+	} else if len(size) > 0 && size[0] <= 64 && d1 != "" && topFrames(d1) == topFrames(d2) {
+		// a call on at most 64 terms (milliseconds of work) that is still executing the same library functions
+		// after the limit, 10^4..10^5 times its normal duration, and again 3 s later: a loop that does not end
+		if len(d1) > 3000 {
+			d1 = d1[:3000]
+		}
+		c.Fail(key+"/no-termination", "%s (a workload of %d terms) did not return within %v and is still running in the same library functions in two dumps 3 s apart (non-terminating loop):\n%s", desc(), size[0], limit, d1)
 	} else {
 		c.Inconclusive("%s did not return within %v but goroutines were still making progress (blocked=%v same=%v)", desc(), limit, allBlocked, d1 == d2)
 		if os.Getenv("VERIF_DEBUG") != "" {
@@ -114,6 +121,21 @@ func withWatchdog(c *mon.Ctx, key string, desc func() string, limit time.Duratio
 		}
 	}
 	return false
+}
+
+// topFrames reduces a normalised dump to the sorted set of innermost library functions of its goroutines.
+func topFrames(d string) string {
+	var tops []string
+	for _, g := range strings.Split(d, "\n--\n") {
+		for _, l := range strings.Split(g, "\n") {
+			if strings.Contains(l, "gnark-crypto/") && !strings.HasPrefix(l, "\t") && !strings.HasPrefix(l, "[") {
+				tops = append(tops, l)
+				break
+			}
+		}
+	}
+	sort.Strings(tops)
+	return strings.Join(tops, "|")
 }
 
 func shapeScalars(e *env, shape string, n int, c uint64) []*big.Int {
@@ -288,7 +310,7 @@ func runGroup(c *mon.Ctx, g *groups.Group) {
 					for rep := 0; rep < 2; rep++ {
 						var out groups.Rep
 						var err error
-						if !withWatchdog(c, key, desc, limit, func() { out, err = g.MultiExp(idx, sc, nb, variant) }) {
+						if !withWatchdog(c, key, desc, limit, func() { out, err = g.MultiExp(idx, sc, nb, variant) }, n) {
 							runtime.GOMAXPROCS(prev)
 							return
 						}
@@ -345,7 +367,7 @@ func runGroup(c *mon.Ctx, g *groups.Group) {
 					}
 					var out groups.Rep
 					var err error
-					if !withWatchdog(c, N+"/Fold", desc, limit, func() { out, err = g.Fold(idx, coeff, nb, variant) }) {
+					if !withWatchdog(c, N+"/Fold", desc, limit, func() { out, err = g.Fold(idx, coeff, nb, variant) }, n) {
 						return
 					}
 					check("Fold", N+"/Fold", fmt.Sprintf("n%d/c%d/%s", n, ci, ps), out, err, want, desc)
@@ -380,7 +402,7 @@ func runGroup(c *mon.Ctx, g *groups.Group) {
 					}
 					c.Current(desc())
 					var out groups.Rep
-					if !withWatchdog(c, N+"/innerMsm", desc, limit, func() { out = g.InnerMsm(cw, idx, sc, nb) }) {
+					if !withWatchdog(c, N+"/innerMsm", desc, limit, func() { out = g.InnerMsm(cw, idx, sc, nb) }, nInner) {
 						return
 					}
 					check("innerMsm", N+"/innerMsm", fmt.Sprintf("c%d/%s/%s", cw, ss, ps), out, nil, want, desc)
